@@ -22,7 +22,7 @@ open CKT CKT.Sampler
 variable {V : Type}
 
 structure Lawful (B : Backend V) : Prop where
-  apply_norm : ∀ name qs v v', B.apply name qs v = some v' → B.norm2 v' = B.norm2 v
+  apply_norm : ∀ i v v', B.apply i v = some v' → B.norm2 v' = B.norm2 v
   proj_split : ∀ q v, B.norm2 (B.proj q false v) + B.norm2 (B.proj q true v) = B.norm2 v
   flip_norm : ∀ q v, B.norm2 (B.flip q v) = B.norm2 v
   nonneg : ∀ v, 0 ≤ B.norm2 v
@@ -45,24 +45,24 @@ theorem split_total (B : Backend V) (hB : Lawful B) (q f : Nat) (reset : Bool) (
     by_cases c0 : B.norm2 (B.proj q false b.2) ≤ 0 <;> by_cases c1 : B.norm2 (B.proj q true b.2) ≤ 0 <;>
       simp [c0, c1, hf] <;> linarith
 
-theorem mapM_total (B : Backend V) (hB : Lawful B) (name : String) (qs : List Nat) :
+theorem mapM_total (B : Backend V) (hB : Lawful B) (i : SInstr) :
     ∀ (bs out : List (Branch V)),
-      (bs.mapM fun b => match B.apply name qs b.2 with
+      (bs.mapM fun b => match B.apply i b.2 with
         | some v => (Except.ok (b.1, v) : R (Branch V))
-        | none => .error (.other ("unsupported gate " ++ name))) = .ok out → total B out = total B bs := by
+        | none => .error (.other ("unsupported gate " ++ i.name))) = .ok out → total B out = total B bs := by
   intro bs
   induction bs with
   | nil => intro out h; simp [List.mapM_nil, pure, Except.pure] at h; subst h; rfl
   | cons b rest ih =>
     intro out h
     rw [List.mapM_cons] at h
-    cases hv : B.apply name qs b.2 with
+    cases hv : B.apply i b.2 with
     | none => simp [hv, bind, Except.bind] at h
     | some v =>
       simp only [hv, bind, Except.bind] at h
-      cases hr : (rest.mapM fun b => match B.apply name qs b.2 with
+      cases hr : (rest.mapM fun b => match B.apply i b.2 with
         | some v => (Except.ok (b.1, v) : R (Branch V))
-        | none => .error (.other ("unsupported gate " ++ name))) with
+        | none => .error (.other ("unsupported gate " ++ i.name))) with
       | error e => rw [hr] at h; cases h
       | ok out' =>
         rw [hr] at h
@@ -71,7 +71,7 @@ theorem mapM_total (B : Backend V) (hB : Lawful B) (name : String) (qs : List Na
         simp only [total, List.map_cons, List.sum_cons]
         have := ih out' hr
         simp only [total] at this
-        rw [this, hB.apply_norm name qs b.2 v hv]
+        rw [this, hB.apply_norm i b.2 v hv]
 
 theorem step_total (B : Backend V) (hB : Lawful B) (bs out : List (Branch V)) (i : SInstr)
     (h : step B 0 bs i = .ok out) : total B out = total B bs := by
@@ -84,7 +84,7 @@ theorem step_total (B : Backend V) (hB : Lawful B) (bs out : List (Branch V)) (i
       · injection h with h; subst h; exact split_total B hB _ _ _ _
       · split at h
         · cases h
-        · exact mapM_total B hB i.name i.qubits bs out h
+        · exact mapM_total B hB i bs out h
 
 /-- T13.2: the branch probabilities always add up to the norm of the initial state (= 1) -/
 theorem run_total (B : Backend V) (hB : Lawful B) (init : V) (instrs : List SInstr) (out : List (Branch V))
@@ -147,7 +147,7 @@ theorem classical_arg_refused (B : Backend V) (tol : Rat) (bs : List (Branch V))
 
 /-- non-vacuity / sanity: a Bell pair measured into two bits, exactly -/
 example : simulate cliffordBackend 0 (cliffordInit 2)
-    [⟨"h", [0], [], false⟩, ⟨"cx", [0, 1], [], false⟩, ⟨"measure", [0], [0], false⟩, ⟨"measure", [1], [1], false⟩]
+    [⟨"h", [0], [], false, 0⟩, ⟨"cx", [0, 1], [], false, 0⟩, ⟨"measure", [0], [0], false, 0⟩, ⟨"measure", [1], [1], false, 0⟩]
     = .ok [(0, 1/2), (3, 1/2)] := by decide +kernel
 
 end CKT.C13
